@@ -1880,8 +1880,8 @@ class SequenceOfAndSetOfBase(base.ConstructedAsn1Type):
             When idx > len(self)
         """
         if isinstance(idx, slice):
-            indices = tuple(range(len(self)))
-            startIdx = indices and indices[idx][0] or 0
+            # the slice may start right past the last component
+            startIdx = idx.indices(len(self))[0]
             for subIdx, subValue in enumerate(value):
                 self.setComponentByPosition(
                     startIdx + subIdx, subValue, verifyConstraints,
